@@ -84,15 +84,38 @@ theorem C18_accumulate_history (c₁ c₂ : List (List (List Rat))) (X : Nat) (a
         List.getElem?_eq_getElem hi2] using this
     rw [hn, hs, hq]
 
-/-- `store` raises exactly when nothing was accumulated or fewer frames than the estimate
-needs (1, or 2 under Bessel's correction). -/
-theorem C18_store_raises (st : Option Acc) (bessel : Bool) :
+/-- The guard of `store` on the buffers themselves.  This is the model's `if` unfolded
+(definitional, NOT counted as an obligation); the statement with content is `C18_store_raises`
+below, which ties the count in the buffers to the history of `accumulate` calls. -/
+theorem store_none_iff (st : Option Acc) (bessel : Bool) :
     store st bessel = none ↔ (st = none ∨ ∃ a, st = some a ∧ a.count < (if bessel then 2 else 1)) := by
   cases st with
   | none => simp [store]
   | some a =>
     simp only [store]
     split <;> simp_all
+
+/-- **C18_store_raises.**  After ANY history of `accumulate` calls (well-formed chunks of `X ≥ 1`
+coefficients), `store(bessel)` raises exactly when there was no call at all or the calls together
+handed over fewer frames than the estimate needs (1, or 2 under Bessel's correction) — in terms
+of the history (`framesOf`: the total number of frames), not of the buffer. -/
+theorem C18_store_raises (chunks : List (List (List Rat))) (X : Nat) (bessel : Bool)
+    (_hX0 : 0 < X) (hok : ChunksOK X chunks) :
+    store (accumulateAllCols chunks) bessel = none ↔
+      (chunks = [] ∨ framesOf chunks < (if bessel then 2 else 1)) := by
+  rw [store_accumulateAllCols chunks X bessel hok]
+  cases chunks with
+  | nil => simp [storeOk]
+  | cons c cs =>
+    by_cases hle : (if bessel = true then 2 else 1) ≤ framesOf (c :: cs)
+    · have : storeOk (c :: cs) bessel = true := by simp [storeOk, hle]
+      rw [if_pos this]
+      simp only [reduceCtorEq, List.cons_ne_nil, false_or, false_iff, Nat.not_lt]
+      exact hle
+    · have : ¬ storeOk (c :: cs) bessel = true := by simp [storeOk, hle]
+      rw [if_neg this]
+      simp only [List.cons_ne_nil, false_or, true_iff]
+      omega
 
 /-- **C18_store.**  With buffers holding the totals of `pool`, `store` writes the pooled mean
 `Σx/n` and the variance `Σx²/n − mean² = (1/n) Σ (x − μ)²`, multiplied by `n/(n−1)` under
@@ -251,16 +274,61 @@ theorem C18_forward_own (cols : List (List Rat)) (sq : List Rat) (eps : Rat) (i 
   exact ⟨meanVarNormCols_mean_own cols none sq eps i hi,
     meanVarNormCols_var_own cols none sq eps i hi, by rw [hy]; exact n1, by rw [hy]; exact n2⟩
 
-/-- **C18_forward_stored.**  With stored statistics `forward` is
-`(x − mean[i]) / max(std[i], eps)` coefficient by coefficient; with the statistics that
-`accumulate`/`store` produced for the pooled data (`C18_accumulate_store`) the pooled output
-has mean 0 and variance 1 (`C18_normalized`, `C18_normalized_bessel`). -/
-theorem C18_forward_stored (cols : List (List Rat)) (m sd sq : List Rat) (eps : Rat) (i : Nat)
+/-- The per-column formula with both statistics supplied.  Unfolds the model's `zipWith`
+(definitional, subsumed by `C18_forward_combinations`; NOT counted as an obligation). -/
+theorem forward_stored_formula (cols : List (List Rat)) (m sd sq : List Rat) (eps : Rat) (i : Nat)
     (hi : i < cols.length) (hm : i < m.length) (hsd : i < sd.length) :
     (meanVarNormCols cols (some m) (some sd) sq eps).2.2.getD i []
       = normCol (cols.getD i []) (m.getD i 0) (sd.getD i 0) eps := by
   simpa using meanVarNormCols_ys cols (some m) (some sd) sq eps i hi (by simpa using hm)
     (by simpa using hsd)
+
+/-- **C18_forward_stored** (the property's "normalising with them gives each coefficient zero mean
+and unit variance over the pooled data", end to end).  Take ANY history `chunks` of `accumulate`
+calls, let `store(bessel)` write `(m, v)`, let `sd` be the stored deviations (`sd[i]² = v[i] > 0`,
+`sqrt` trusted; `eps ≤ sd[i]`: clamp inactive), and run `forward` with those stored statistics on
+columns `cols` whose `i`-th column is (any rearrangement of) the pooled frames of coefficient `i`.
+Then the output column is `(x − m[i]) / max(sd[i], eps)`, its mean is 0 and its (biased, resp.
+Bessel-corrected) variance is 1. -/
+theorem C18_forward_stored (chunks : List (List (List Rat))) (X : Nat) (bessel : Bool)
+    (m v sd sq : List Rat) (eps : Rat)
+    (hX : ∀ c ∈ chunks, c.length = X)
+    (hrect : ∀ c ∈ chunks, ∀ i, i < X → (c.getD i []).length = (c.headD []).length)
+    (h : store (accumulateAllCols chunks) bessel = some (m, v)) (i : Nat) (hi : i < X)
+    (hsd : i < sd.length) (hpos : 0 < v.getD i 0)
+    (hs : sd.getD i 0 * sd.getD i 0 = v.getD i 0) (he : eps ≤ sd.getD i 0)
+    (cols : List (List Rat)) (hc : i < cols.length)
+    (hpool : (cols.getD i []).Perm (chunks.flatMap (fun c => c.getD i []))) :
+    let y := (meanVarNormCols cols (some m) (some sd) sq eps).2.2.getD i []
+    y = normCol (cols.getD i []) (m.getD i 0) (sd.getD i 0) eps ∧
+    poolMean y = 0 ∧ (if bessel then poolVarBessel y else poolVar y) = 1 := by
+  intro y
+  cases hacc : accumulateAllCols chunks with
+  | none => rw [hacc] at h; simp [store] at h
+  | some a =>
+    obtain ⟨l1, _⟩ := C18_accumulate_lengths chunks X a hX hacc
+    obtain ⟨p0, _, _⟩ := C18_accumulate chunks X a hX hrect hacc i hi (cols.getD i []) hpool
+    obtain ⟨hm, hv⟩ := C18_accumulate_store chunks X bessel m v hX hrect h i hi (cols.getD i []) hpool
+    have hcnt : ¬ a.count < (if bessel = true then 2 else 1) := by
+      intro hc'; rw [hacc] at h; simp [store, hc'] at h
+    have hml : i < m.length := by
+      rw [hacc] at h
+      simp only [store, hcnt, if_false, Option.some.injEq, Prod.mk.injEq] at h
+      rw [← h.1]; simp; omega
+    have hy : y = normCol (cols.getD i []) (m.getD i 0) (sd.getD i 0) eps :=
+      forward_stored_formula cols m sd sq eps i hc hml hsd
+    refine ⟨hy, ?_⟩
+    rw [hy, hm]
+    cases bessel with
+    | false =>
+      simp only [Bool.false_eq_true, if_false] at hv ⊢
+      rw [hv] at hpos hs
+      exact C18_normalized _ _ eps hpos hs he
+    | true =>
+      simp only [if_true] at hv hcnt ⊢
+      rw [hv] at hpos hs
+      have hn2 : 2 ≤ (cols.getD i []).length := by rw [← p0]; omega
+      exact C18_normalized_bessel _ _ eps hn2 hpos hs he
 
 /-! ## Returns -/
 
@@ -309,34 +377,40 @@ theorem C18_return_batch_first (r : List (List Rat)) (cols : Nat) (g : Rat) (t n
       simp [List.getD_eq_getElem?_getD, List.getElem?_map, List.getElem?_range ht]
     rw [hcol, dot_comm, dot_discount_row0]
 
-/-- **The recursion itself**, on the output of the model: `R_t = r_t + γ R_{t+1}` for every
-`t < T`, with `R_T = 0` (reading beyond the horizon gives the default 0). -/
+/-- **The recursion itself**, on the output of the model (time-major layout):
+`R_t = r_t + γ R_{t+1}` for every `t < T`, where beyond the horizon `R_T` is 0 — written as an
+explicit case distinction (the first version of this theorem read `R_T` off the output list with
+a default-0 lookup, so its clause `R_T = 0` was true by the default alone). -/
 theorem C18_return_recursion (r : List (List Rat)) (cols : Nat) (g : Rat) (t n : Nat)
     (ht : t < r.length) (hn : n < cols) :
     let R := fun t => ((tdReturn r cols g false).getD t []).getD n 0
-    R t = (r.getD t []).getD n 0 + g * R (t + 1) ∧ R r.length = 0 := by
+    R t = (r.getD t []).getD n 0 + g * (if t + 1 < r.length then R (t + 1) else 0) := by
   intro R
-  have hlen : (tdReturn r cols g false).length = r.length := by
-    unfold tdReturn; split
-    · rfl
-    · simp [matmul, discountTriu]
-  refine ⟨?_, ?_⟩
-  · show ((tdReturn r cols g false).getD t []).getD n 0 = _
-    rw [C18_return r cols g t n ht hn, retSpec_drop g _ t (by simpa using ht)]
-    congr 1
-    · simp [List.getD_eq_getElem?_getD, List.getElem?_map, List.getElem?_eq_getElem ht]
-    · congr 1
+  show ((tdReturn r cols g false).getD t []).getD n 0 = _
+  rw [C18_return r cols g t n ht hn, retSpec_drop g _ t (by simpa using ht)]
+  congr 1
+  · simp [List.getD_eq_getElem?_getD, List.getElem?_map, List.getElem?_eq_getElem ht]
+  · congr 1
+    by_cases h1 : t + 1 < r.length
+    · rw [if_pos h1]
       show _ = ((tdReturn r cols g false).getD (t + 1) []).getD n 0
-      by_cases h1 : t + 1 < r.length
-      · rw [C18_return r cols g (t + 1) n h1 hn]
-      · rw [retSpec_drop_length g _ _ (by simp; omega)]
-        have : (tdReturn r cols g false).getD (t + 1) [] = [] := by
-          rw [List.getD_eq_getElem?_getD, List.getElem?_eq_none (by omega)]; rfl
-        rw [this]; rfl
-  · show ((tdReturn r cols g false).getD r.length []).getD n 0 = 0
-    have : (tdReturn r cols g false).getD r.length [] = [] := by
-      rw [List.getD_eq_getElem?_getD, List.getElem?_eq_none (by omega)]; rfl
-    rw [this]; rfl
+      rw [C18_return r cols g (t + 1) n h1 hn]
+    · rw [if_neg h1, retSpec_drop_length g _ _ (by simp; omega)]
+
+/-- The recursion in the batch-first layout `r[n][t]` (every row has `cols = T` entries). -/
+theorem C18_return_recursion_batch_first (r : List (List Rat)) (cols : Nat) (g : Rat) (t n : Nat)
+    (hn : n < r.length) (ht : t < cols) (hrow : (r.getD n []).length = cols) :
+    let R := fun t => ((tdReturn r cols g true).getD n []).getD t 0
+    R t = (r.getD n []).getD t 0 + g * (if t + 1 < cols then R (t + 1) else 0) := by
+  intro R
+  show ((tdReturn r cols g true).getD n []).getD t 0 = _
+  rw [C18_return_batch_first r cols g t n hn ht hrow, retSpec_drop g _ t (by omega)]
+  congr 2
+  by_cases h1 : t + 1 < cols
+  · rw [if_pos h1]
+    show _ = ((tdReturn r cols g true).getD n []).getD (t + 1) 0
+    rw [C18_return_batch_first r cols g (t + 1) n hn h1 hrow]
+  · rw [if_neg h1, retSpec_drop_length g _ _ (by omega)]
 
 /-- The pinned tree built the discount matrix as a quotient of two powers of `γ`; over the
 rationals that is the same function (in floating point it is `0/0 = NaN` once `γ^t`
@@ -499,7 +573,8 @@ included), stacking or concatenation, any order, width and pad mode: the model o
 `conv1d`, `view`, `transpose(-2, -1)`, `transpose(time_dim, -2)`, `movedim(-1, dim)`,
 `flatten(dim, dim + 1)` on a row-major buffer — IS the declarative index map
 `featDeltasSpec`: it raises (`none`) exactly when the width is 0, `time_dim` or `dim` is out
-of range, or the padding is illegal for a non-empty input; otherwise the output has the shape
+of range, the time axis has extent 0, or the padding is illegal for the number of frames (`pad` and
+`conv1d` check the shape: also when another axis is empty); otherwise the output has the shape
 of `x` with an axis of size `order + 1` inserted at `dim` (stack) or with axis `dim`
 multiplied by `order + 1` (concatenate, order-major: entry `u·S + c` of that axis is order `u`
 of coefficient `c`), and its entry at `(…, u, …)` is `deltaSpec w (extAt mode signal) u t` — the
@@ -537,11 +612,73 @@ theorem C18_delta_layout (x : Tensor) (dim timeDim : Int) (concatenate : Bool) (
 
 /-- `accumulate` on tensors is `accumulateCols` on the coefficient columns
 (`transpose(0, dim).unsqueeze(-1).flatten(1)`), so the theorems above apply to any history of
-tensors. -/
-theorem C18_accumulate_tensors (dim : Nat) (xs : List Tensor) :
+tensors with at least one coefficient.  Bridge lemma: true by definition of `accumulate`
+(`List.foldl_map`), NOT counted as an obligation; the content is in `C18_columns_entries` /
+`C18_accumulate_entries`.  (Without any coefficient: `C18_accumulate_no_coefficient`.) -/
+theorem C18_accumulate_tensors (dim : Nat) (xs : List Tensor)
+    (hX : ∀ x ∈ xs, x.shape.getD dim 1 ≠ 0) :
     accumulateAll dim xs = accumulateAllCols (xs.map (fun x => columns x dim)) := by
-  unfold accumulateAll accumulateAllCols accumulate
+  unfold accumulateAll accumulateAllCols
   rw [List.foldl_map]
+  generalize (none : Option Acc) = st
+  induction xs generalizing st with
+  | nil => rfl
+  | cons x xs ih =>
+    simp only [List.foldl_cons]
+    have hx : accumulate st x dim = accumulateCols st (columns x dim) := by
+      unfold accumulate
+      exact if_neg (hX x List.mem_cons_self)
+    rw [hx]
+    exact ih (fun y hy => hX y (by simp [hy])) _
+
+/-- One `accumulate` call on a tensor WITHOUT any coefficient (`x.size(dim) = 0`). -/
+theorem accumulate_no_coefficient (st : Option Acc) (x : Tensor) (dim : Nat)
+    (h0 : x.shape.getD dim 1 = 0) (hst : st = none ∨ ∃ n, st = some ⟨n, [], []⟩) :
+    accumulate st x dim = ⟨(st.map (·.count)).getD 0 + frameCount x dim, [], []⟩ := by
+  have hc : columns x dim = [] := by
+    show rowsOf _ _ (x.shape.getD dim 1) = []
+    rw [h0]; rfl
+  have hx : accumulate st x dim
+      = { accumulateCols st (columns x dim) with
+          count := (st.map (·.count)).getD 0 + frameCount x dim } := by
+    unfold accumulate
+    exact if_pos h0
+  rw [hx, hc]
+  rcases hst with rfl | ⟨n, rfl⟩ <;> simp [accumulateCols]
+
+/-- **C18_accumulate_no_coefficient** (audit).  A normalised dimension of extent 0: after any
+non-empty history of such tensors the buffers are `count =` the total number of frames
+(`frameCount`: the product of the other extents — the code's `x.size(1)`), `sum = sumsq = []`, and
+`store(bessel)` raises exactly below the documented minimum count and otherwise writes EMPTY
+statistics (it does not raise for want of coefficients). -/
+theorem C18_accumulate_no_coefficient (dim : Nat) (x : Tensor) (xs : List Tensor) (bessel : Bool)
+    (h0 : ∀ y ∈ x :: xs, y.shape.getD dim 1 = 0) :
+    accumulateAll dim (x :: xs) = some ⟨((x :: xs).map (frameCount · dim)).sum, [], []⟩ ∧
+    store (accumulateAll dim (x :: xs)) bessel
+      = if ((x :: xs).map (frameCount · dim)).sum < (if bessel then 2 else 1) then none
+        else some ([], []) := by
+  have aux : ∀ (ys : List Tensor) (n : Nat), (∀ y ∈ ys, y.shape.getD dim 1 = 0) →
+      ys.foldl (fun st y => some (accumulate st y dim)) (some ⟨n, [], []⟩)
+        = some ⟨n + (ys.map (frameCount · dim)).sum, [], []⟩ := by
+    intro ys
+    induction ys with
+    | nil => intro n _; simp
+    | cons y ys ih =>
+      intro n hy
+      simp only [List.foldl_cons, List.map_cons, List.sum_cons]
+      rw [accumulate_no_coefficient _ y dim (hy y (by simp)) (Or.inr ⟨n, rfl⟩)]
+      simp only [Option.map_some, Option.getD_some]
+      rw [ih _ (fun z hz => hy z (by simp [hz])), Nat.add_assoc]
+  have hall : accumulateAll dim (x :: xs) = some ⟨((x :: xs).map (frameCount · dim)).sum, [], []⟩ := by
+    unfold accumulateAll
+    simp only [List.foldl_cons, List.map_cons, List.sum_cons]
+    rw [accumulate_no_coefficient none x dim (h0 x (by simp)) (Or.inl rfl)]
+    simp only [Option.map_none, Option.getD_none, Nat.zero_add]
+    exact aux xs _ (fun z hz => h0 z (by simp [hz]))
+  refine ⟨hall, ?_⟩
+  rw [hall]
+  simp only [store]
+  split <;> simp_all
 
 /-- **C18_columns_entries.**  For a tensor of any rank and any normalised dimension `dim`:
 coefficient `i`'s frame list in the model of `accumulate` / `forward`
@@ -566,7 +703,7 @@ theorem C18_accumulate_entries (dim : Nat) (xs : List Tensor) (X : Nat) (a : Acc
     (h : accumulateAll dim xs = some a) (i : Nat) (hi : i < X) (pool : List Rat)
     (hp : pool.Perm (xs.flatMap (fun x => coeffEntries x dim i))) :
     a.count = pool.length ∧ a.sum.getD i 0 = pool.sum ∧ a.sumsq.getD i 0 = sumSq pool := by
-  rw [C18_accumulate_tensors] at h
+  rw [C18_accumulate_tensors dim xs (fun x hx => by rw [hX x hx]; omega)] at h
   have hlen : ∀ x ∈ xs, ∀ j, j < X → ((columns x dim).getD j []).length = x.numel / X := by
     intro x hx j hj
     rw [columns_getD x _ dim rfl (hdim x hx) j (by rw [hX x hx]; exact hj), hX x hx]
@@ -653,8 +790,10 @@ theorem C18_forward_mean_only (col : List Rat) (m s eps : Rat) (hpos : 0 < poolV
   ring
 
 /-- **Std supplied, mean omitted.**  A column centred with its own mean has mean 0 whatever
-deviation and `eps` it is divided by. -/
-theorem C18_forward_std_only (col : List Rat) (s eps : Rat) :
+non-zero divisor `max(s, eps)` it is divided by.  (The guard keeps the statement inside the domain
+where the model is the code: with `max(s, eps) = 0` the rationals give `x / 0 = 0`, hence also mean
+0, but the real code gives `inf` / `NaN`.) -/
+theorem C18_forward_std_only (col : List Rat) (s eps : Rat) (_hd : max s eps ≠ 0) :
     poolMean (normCol col (poolMean col) s eps) = 0 := by
   unfold poolMean normCol
   rw [sum_sub_div]
@@ -674,9 +813,11 @@ of `accumulate` / `store(delete_stats, bessel)` calls — stores that raise incl
 carrying on — the buffers are exactly the totals of `pendingSpec pend ops` (everything accumulated
 since the last `store(delete_stats=True)` that did not raise; no buffers iff that list is empty)
 and the statistics are `statsSpec pend cur ops` (the pooled mean / variance of what was pending at
-the last `store` that did not raise, else `cur`). -/
+the last `store` that did not raise, else `cur`).  `0 < X`: with NO coefficient (`x.size(dim) = 0`)
+the code still counts the frames (`count += x.size(1)`) while the model, which sees the frames only
+through the coefficient columns, counts 0 — outside the modelled domain. -/
 theorem C18_machine (X : Nat) (ops : List MvnOp) (pend : List (List (List Rat)))
-    (cur : Option (List Rat × List Rat)) (hp : ChunksOK X pend) (ho : OpsOK X ops) :
+    (cur : Option (List Rat × List Rat)) (_hX0 : 0 < X) (hp : ChunksOK X pend) (ho : OpsOK X ops) :
     mvnRun ⟨accumulateAllCols pend, cur⟩ ops
       = ⟨accumulateAllCols (pendingSpec pend ops), statsSpec pend cur ops⟩ :=
   mvnRun_spec X ops pend cur hp ho
@@ -685,7 +826,7 @@ theorem C18_machine (X : Nat) (ops : List MvnOp) (pend : List (List (List Rat)))
 and then leaves buffers and statistics untouched; otherwise it overwrites the statistics with the
 pooled ones, keeps the buffers as they are under `delete_stats=False` and drops them otherwise. -/
 theorem C18_machine_store (X : Nat) (pend : List (List (List Rat)))
-    (cur : Option (List Rat × List Rat)) (del bessel : Bool) (hp : ChunksOK X pend) :
+    (cur : Option (List Rat × List Rat)) (del bessel : Bool) (_hX0 : 0 < X) (hp : ChunksOK X pend) :
     mvnStep ⟨accumulateAllCols pend, cur⟩ (.store del bessel)
       = if storeOk pend bessel then
           (⟨if del then none else accumulateAllCols pend, some (pooledStats pend bessel)⟩, false)
@@ -910,5 +1051,203 @@ example : cliStats (some [("a", "g1"), ("b", "g2"), ("c", "g1"), ("z", "g3")])
     cliStats none [("a", [[1, 3]]), ("b", [[5]])] true = .wrote [(none, ([3], [4]))] ∧
     cliStats none [] false = .exit1 ∧ cliStats none [("a", [[1]])] true = .raised := by
   decide +kernel
+
+/-! ## Non-vacuity (audit): every theorem applied to a concrete, non-trivial instance that satisfies
+ALL its hypotheses together -/
+
+section NonVacuity
+
+/-- two calls (2 frames + 1 frame) of 2 coefficients -/
+private def nvChunks : List (List (List Rat)) := [[[1, 3], [2, 5]], [[5], [2]]]
+/-- the same frames, the other order and another cut (1 + 1 + 1) -/
+private def nvChunks' : List (List (List Rat)) := [[[5], [2]], [[3], [5]], [[1], [2]]]
+
+theorem C18_accumulate_nonvacuous :
+    (⟨3, [9, 9], [35, 33]⟩ : Acc).count = ([5, 1, 3] : List Rat).length ∧
+    (⟨3, [9, 9], [35, 33]⟩ : Acc).sum.getD 0 0 = ([5, 1, 3] : List Rat).sum ∧
+    (⟨3, [9, 9], [35, 33]⟩ : Acc).sumsq.getD 0 0 = sumSq [5, 1, 3] :=
+  C18_accumulate nvChunks 2 ⟨3, [9, 9], [35, 33]⟩ (by decide +kernel) (by decide +kernel)
+    (by decide +kernel) 0 (by decide) [5, 1, 3] (by decide +kernel)
+
+theorem C18_accumulate_lengths_nonvacuous :
+    (⟨3, [9, 9], [35, 33]⟩ : Acc).sum.length = 2 ∧ (⟨3, [9, 9], [35, 33]⟩ : Acc).sumsq.length = 2 :=
+  C18_accumulate_lengths nvChunks 2 ⟨3, [9, 9], [35, 33]⟩ (by decide +kernel) (by decide +kernel)
+
+/-- two DIFFERENT histories (order and cut) over the same frames -/
+theorem C18_accumulate_history_nonvacuous : nvChunks ≠ nvChunks' ∧
+    (⟨3, [9, 9], [35, 33]⟩ : Acc) = ⟨3, [9, 9], [35, 33]⟩ :=
+  ⟨by decide +kernel,
+   C18_accumulate_history nvChunks nvChunks' 2 _ _ (by decide +kernel) (by decide +kernel)
+    (by decide +kernel) (by decide +kernel) (by decide +kernel) (by decide +kernel) (by decide)
+    (by decide +kernel)⟩
+
+/-- both directions of `C18_store_raises`: one frame under Bessel raises, three frames do not -/
+theorem C18_store_raises_nonvacuous :
+    store (accumulateAllCols [[[9]]]) true = none ∧ store (accumulateAllCols nvChunks) true ≠ none := by
+  have hok1 : ChunksOK 1 [[[9]]] := by unfold ChunksOK; decide +kernel
+  have hok2 : ChunksOK 2 nvChunks := by unfold ChunksOK; decide +kernel
+  refine ⟨(C18_store_raises [[[9]]] 1 true (by decide) hok1).mpr (Or.inr (by decide +kernel)), ?_⟩
+  intro h
+  rcases (C18_store_raises nvChunks 2 true (by decide) hok2).mp h with h | h
+  · exact absurd h (by decide +kernel)
+  · exact absurd h (by decide +kernel)
+
+theorem C18_store_nonvacuous :
+    ([3, 3] : List Rat).getD 0 0 = poolMean [5, 1, 3] ∧
+    ([4, 3] : List Rat).getD 0 0 = poolVarBessel [5, 1, 3] := by
+  simpa using C18_store ⟨3, [9, 9], [35, 33]⟩ true [3, 3] [4, 3] (by decide +kernel) 0 (by decide)
+    (by decide) [5, 1, 3] (by decide) (by decide +kernel) (by decide +kernel)
+
+theorem C18_accumulate_store_nonvacuous :
+    ([3, 3] : List Rat).getD 1 0 = poolMean [2, 2, 5] ∧
+    ([8 / 3, 2] : List Rat).getD 1 0 = poolVar [2, 2, 5] := by
+  simpa using C18_accumulate_store nvChunks 2 false [3, 3] [8 / 3, 2] (by decide +kernel)
+    (by decide +kernel) (by decide +kernel) 1 (by decide) [2, 2, 5] (by decide +kernel)
+
+theorem C18_normalized_nonvacuous :
+    poolMean (normCol [1, 5, 1, 5] (poolMean [1, 5, 1, 5]) 2 (1 / 1000)) = 0 ∧
+    poolVar (normCol [1, 5, 1, 5] (poolMean [1, 5, 1, 5]) 2 (1 / 1000)) = 1 :=
+  C18_normalized [1, 5, 1, 5] 2 (1 / 1000) (by decide +kernel) (by decide +kernel) (by decide +kernel)
+
+theorem C18_normalized_bessel_nonvacuous :
+    poolMean (normCol [1, 3, 5] (poolMean [1, 3, 5]) 2 (1 / 1000)) = 0 ∧
+    poolVarBessel (normCol [1, 3, 5] (poolMean [1, 3, 5]) 2 (1 / 1000)) = 1 :=
+  C18_normalized_bessel [1, 3, 5] 2 (1 / 1000) (by decide) (by decide +kernel) (by decide +kernel)
+    (by decide +kernel)
+
+/-- two coefficients, the second one (variance 9, sqrt 3) -/
+example := C18_forward_own [[1, 5, 1, 5], [0, 6, 0, 6]] [2, 3] (1 / 1000) 1 (by decide) (by decide)
+  (by decide +kernel) (by decide +kernel) (by decide +kernel)
+
+/-- end to end: history `nvChunks`, Bessel store `([3, 3], [4, 3])`, deviations `[2, _]`
+(`2² = 4`), forward on the pooled column `[5, 1, 3]` (a rearrangement of the frames) -/
+theorem C18_forward_stored_nonvacuous :
+    let y := (meanVarNormCols [[5, 1, 3], [2, 5, 2]] (some [3, 3]) (some [2, 7]) [] (1 / 1000)).2.2.getD 0 []
+    y = normCol [5, 1, 3] 3 2 (1 / 1000) ∧ poolMean y = 0 ∧ poolVarBessel y = 1 := by
+  simpa using C18_forward_stored nvChunks 2 true [3, 3] [4, 3] [2, 7] [] (1 / 1000) (by decide +kernel)
+    (by decide +kernel) (by decide +kernel) 0 (by decide) (by decide) (by decide +kernel)
+    (by decide +kernel) (by decide +kernel) [[5, 1, 3], [2, 5, 2]] (by decide) (by decide +kernel)
+
+example := C18_return [[1, 2], [3, 4], [5, 6]] 2 (-1 / 2) 1 1 (by decide) (by decide)
+example := C18_return_batch_first [[1, 3, 5], [2, 4, 6]] 3 2 1 1 (by decide) (by decide) (by decide)
+/-- interior step (`t + 1 < T`) and last step (`t + 1 = T`) -/
+example := C18_return_recursion [[1, 2], [3, 4], [5, 6]] 2 (1 / 2) 0 1 (by decide) (by decide)
+example := C18_return_recursion [[1, 2], [3, 4], [5, 6]] 2 (1 / 2) 2 1 (by decide) (by decide)
+example := C18_return_recursion_batch_first [[1, 3, 5], [2, 4, 6]] 3 (1 / 2) 2 1 (by decide) (by decide)
+  (by decide)
+theorem C18_return_recursion_nonvacuous :
+    ((tdReturn [[1, 2], [3, 4], [5, 6]] 2 (1 / 2) false).getD 0 []).getD 1 0 = 11 / 2 ∧
+    ((tdReturn [[1, 2], [3, 4], [5, 6]] 2 (1 / 2) false).getD 1 []).getD 1 0 = 7 ∧
+    (11 / 2 : Rat) = 2 + 1 / 2 * 7 := by decide +kernel
+
+private def nvFilters : List (List Rat) :=
+  [[0, 0, 1, 0, 0], [0, -1 / 2, 0, 1 / 2, 0], [1 / 4, 0, -1 / 2, 0, 1 / 4]]
+
+example := C18_delta_filter_power 2 1 2 (by decide) nvFilters (by decide +kernel) (-2)
+theorem C18_delta_filters_nonvacuous :
+    (([[0, 1, 4], [1 / 2, 2, 3 / 2], [1, 1 / 2, -1]] : List (List Rat)).getD 2 []).getD 0 0
+      = deltaSpec 1 (extAt .replicate [0, 1, 4]) 2 ((0 : Nat) : Int) :=
+  C18_delta_filters .replicate 2 1 nvFilters (by decide +kernel) [0, 1, 4]
+    [[0, 1, 4], [1 / 2, 2, 3 / 2], [1, 1 / 2, -1]] (by decide +kernel) 2 (by decide) 0 (by decide)
+theorem C18_delta_row_nonvacuous :
+    ([[0, 1, 4], [0, 2, 0], [2, 0, -2]] : List (List Rat)) = deltaRowSpec .reflect 2 1 [0, 1, 4] :=
+  C18_delta_row .reflect 2 1 nvFilters (by decide +kernel) [0, 1, 4] [[0, 1, 4], [0, 2, 0], [2, 0, -2]]
+    (by decide +kernel)
+
+/-- `C18_delta_layout` has no hypothesis; both outcomes occur: a value; an EMPTY input with a padding
+`reflect` forbids for 2 frames (error although there is no row); a time axis of extent 0 (error) -/
+theorem C18_delta_layout_nonvacuous :
+    (featDeltas ⟨[2, 3], [0, 1, 4, 3, 4, 5]⟩ 0 (-1) false 1 1 .replicate).isSome = true ∧
+    featDeltas ⟨[0, 2], []⟩ 0 1 true 2 1 .reflect = none ∧
+    featDeltas ⟨[0, 3], []⟩ 0 1 true 2 1 .reflect = some ⟨[0, 3], []⟩ ∧
+    featDeltas ⟨[3, 0], []⟩ 0 1 true 1 1 (.constant 0) = none := by decide +kernel
+
+private def nvT : Tensor := ⟨[2, 2, 2], [1, 2, 3, 4, 5, 6, 7, 8]⟩
+private def nvT' : Tensor := ⟨[1, 2, 2], [0, 9, 2, 3]⟩
+
+/-- two tensors with a feature axis of extent 0 (3 + 2 frames): store writes empty statistics;
+a single frame under Bessel raises -/
+theorem C18_accumulate_no_coefficient_nonvacuous :
+    store (accumulateAll 1 [⟨[3, 0], []⟩, ⟨[2, 0], []⟩]) true = some ([], []) ∧
+    store (accumulateAll 1 [⟨[1, 0], []⟩]) true = none ∧
+    accumulateAll 1 [⟨[3, 0], []⟩, ⟨[2, 0], []⟩] = some ⟨5, [], []⟩ := by
+  have h1 := C18_accumulate_no_coefficient 1 ⟨[3, 0], []⟩ [⟨[2, 0], []⟩] true (by decide +kernel)
+  have h2 := C18_accumulate_no_coefficient 1 ⟨[1, 0], []⟩ [] true (by decide +kernel)
+  refine ⟨by rw [h1.2]; decide +kernel, by rw [h2.2]; decide +kernel, by rw [h1.1]; decide +kernel⟩
+
+example := C18_columns_entries nvT 2 (by decide) 1 (by decide)
+/-- two tensors of different leading extent, last axis normalised, coefficient 1 -/
+theorem C18_accumulate_entries_nonvacuous :
+    (⟨6, [18, 32], [88, 210]⟩ : Acc).count = ([9, 3, 2, 4, 6, 8] : List Rat).length ∧
+    (⟨6, [18, 32], [88, 210]⟩ : Acc).sum.getD 1 0 = ([9, 3, 2, 4, 6, 8] : List Rat).sum ∧
+    (⟨6, [18, 32], [88, 210]⟩ : Acc).sumsq.getD 1 0 = sumSq [9, 3, 2, 4, 6, 8] :=
+  C18_accumulate_entries 2 [nvT, nvT'] 2 ⟨6, [18, 32], [88, 210]⟩ (by decide +kernel)
+    (by decide +kernel) (by decide +kernel) 1 (by decide) [9, 3, 2, 4, 6, 8] (by decide +kernel)
+
+/-- rank 3, middle axis, own mean and supplied deviation -/
+example := C18_forward_layout nvT 1 (by decide) none (some [2, 1 / 2]) [] (1 / 4) (by decide +kernel)
+  (by decide +kernel)
+example := C18_forward_combinations [[1, 5, 1, 5], [0, 6, 0, 6]] (some [0, 7]) none [2, 3] 0 1
+  (by decide) (by intro m hm; cases hm; decide) (by decide)
+theorem C18_forward_mean_only_nonvacuous :
+    poolVar (normCol [1, 5, 1, 5] 0 2 (1 / 1000)) = 1 ∧
+    poolMean (normCol [1, 5, 1, 5] 0 2 (1 / 1000)) = (poolMean [1, 5, 1, 5] - 0) / 2 :=
+  C18_forward_mean_only [1, 5, 1, 5] 0 2 (1 / 1000) (by decide +kernel) (by decide +kernel)
+    (by decide +kernel)
+example := C18_forward_std_only [1, 5, 1, 6] 4 0 (by decide +kernel)
+
+private def nvOps : List MvnOp :=
+  [.accumulate [[1, 3]], .store false false, .accumulate [[5]], .store true true, .store true false,
+   .accumulate [[7]]]
+
+private theorem nvOps_ok : OpsOK 1 nvOps := by
+  intro c hc
+  simp [nvOps] at hc
+  rcases hc with rfl | rfl | rfl <;>
+  · refine ⟨rfl, fun i hi => ?_⟩
+    have : i = 0 := by omega
+    subst this; rfl
+
+/-- a keeping store, a deleting Bessel store, a store that raises, a restart — from preset statistics -/
+theorem C18_machine_nonvacuous :
+    mvnRun ⟨none, some ([0], [1])⟩ nvOps = ⟨some ⟨1, [7], [49]⟩, some ([3], [4])⟩ ∧
+    pendingSpec [] nvOps = [[[7]]] ∧ statsSpec [] (some ([0], [1])) nvOps = some ([3], [4]) := by
+  have := C18_machine 1 nvOps [] (some ([0], [1])) (by decide) (chunksOK_nil 1) nvOps_ok
+  refine ⟨by decide +kernel, by decide +kernel, by decide +kernel⟩
+
+example := C18_machine_store 1 [[[1, 3]], [[5]]] none true true (by decide)
+  (by unfold ChunksOK; decide +kernel)
+example := C18_machine_entries 2 nvT [nvT'] 2 true (by decide +kernel) (by decide +kernel) 1 (by decide)
+  [9, 3, 2, 4, 6, 8] (by decide +kernel)
+
+private def nvMap : Option (List (String × String)) :=
+  some [("a", "g1"), ("b", "g2"), ("c", "g1"), ("z", "g3")]
+private def nvFiles : List (String × List (List Rat)) := [("a", [[1, 3]]), ("b", [[7]]), ("c", [[5]])]
+private def nvWrote : List (Option String × (List Rat × List Rat)) :=
+  [(some "g1", ([3], [8 / 3])), (some "g2", ([7], [0]))]
+
+/-- three files in two groups, a third group without a file -/
+theorem C18_cli_groups_nonvacuous :
+    store (accumulateAllCols ((groupFiles nvMap nvFiles (some "g1")).map (·.2))) false
+      = some ([3], [8 / 3]) :=
+  ((C18_cli_groups nvMap nvFiles false nvWrote (by decide +kernel) (some "g1") ([3], [8 / 3])).mp
+    (by decide +kernel)).2
+
+theorem C18_cli_group_stats_nonvacuous :
+    ([3] : List Rat).getD 0 0 = poolMean [5, 3, 1] ∧ ([8 / 3] : List Rat).getD 0 0 = poolVar [5, 3, 1] := by
+  simpa using C18_cli_group_stats nvMap nvFiles false nvWrote (by decide +kernel) (some "g1")
+    ([3], [8 / 3]) (by decide +kernel) 1 (by unfold ChunksOK; decide +kernel) 0 (by decide) [5, 3, 1]
+    (by decide +kernel)
+
+/-- each of the three causes of exit status 1, and a run that is none of them -/
+theorem C18_cli_exit1_nonvacuous :
+    cliStats (some [("a", "g"), ("a", "h")]) [("a", [[1]])] false = .exit1 ∧
+    cliStats (some [("a", "g1")]) [("a", [[1, 3]]), ("b", [[7]])] false = .exit1 ∧
+    cliStats none [] false = .exit1 ∧ cliStats nvMap nvFiles false ≠ .exit1 := by
+  refine ⟨(C18_cli_exit1 _ _ _).mpr (Or.inl (by decide +kernel)),
+    (C18_cli_exit1 _ _ _).mpr (Or.inr (Or.inl ⟨("b", [[7]]), by decide +kernel, by decide +kernel⟩)),
+    (C18_cli_exit1 _ _ _).mpr (Or.inr (Or.inr ⟨rfl, rfl⟩)), by decide +kernel⟩
+
+end NonVacuity
 
 end PdtVerif.FeatStats
